@@ -264,6 +264,16 @@ def norm_bits(t, ctx: BitCtx):
             return _atom(t, ctx)
         if o in ("-", "*", "//", "%", "**"):
             return _atom(t, ctx)
+        if o in ("!=", "==") and b.k == "const" and b.a[0] == 0 and b.a[0] is not False:
+            # (x & m) != 0 / bool-like tests of a value with exactly one possibly-set bit: that bit (== 0: its negation)
+            x = norm_bits(a, ctx)
+            if x is not None and x.ext == 0:
+                nz = [q for q in x.bits if q != 0]
+                if len(nz) == 1:
+                    bit = nz[0]
+                    if o == "!=":
+                        return BV([bit], 0)
+                    return BV([(1 - bit) if bit in (0, 1) else TOP], 0)
         if o in ("==", "!=", "<", "<=", ">", ">=", "and", "or", "in", "notin", "is", "isnot"):
             return BV([("a", show(t), 0)], 0)
         return None
@@ -271,12 +281,32 @@ def norm_bits(t, ctx: BitCtx):
         x, y = norm_bits(t.a[1], ctx), norm_bits(t.a[2], ctx)
         if x is not None and y is not None and x.bits == y.bits and x.ext == y.ext:
             return x
+        # a one-bit selection between the constants 1 and 0 (or True/False, or two members of an enum with values 1/0):
+        # the value is the selecting bit itself
+        if t.a[1].k == "const" and t.a[2].k == "const" and t.a[1].a[0] in (1, True) and t.a[2].a[0] in (0, False) and t.a[1].a[0] is not None:
+            c = norm_bits(truthy_bit(t.a[0]), ctx)
+            if c is not None and len(c.bits) == 1 and c.ext == 0:
+                return c
+        if t.a[1].k == "const" and t.a[2].k == "const" and t.a[1].a[0] in (0, False) and t.a[2].a[0] in (1, True):
+            c = norm_bits(truthy_bit(t.a[0]), ctx)
+            if c is not None and len(c.bits) == 1 and c.ext == 0 and c.bits[0] not in (0, 1) and c.bits[0] != TOP:
+                pass        # negated bit: not expressible as a provenance descriptor; fall through
         ctx.problems.append(f"data-dependent alternative {show(t)[:80]}")
         return None
     if k == "call" or k == "sum":
         return _atom(t, ctx)
     ctx.problems.append(f"term kind {k}")
     return None
+
+
+def truthy_bit(c):
+    """a gate condition as the term whose truth value it is (bool(x) for an integer x)"""
+    from .terms import un as _un
+    if c.k == "un" and c.a[0] == "bool":
+        return c
+    if c.k == "op" and c.a[0] in ("!=", "=="):
+        return c
+    return _un("bool", c)
 
 
 def _atom(t, ctx):
